@@ -178,3 +178,143 @@ Definition edge_attrs (o : dotopts) (x : tree) : sdict :=
 (* attribute dictionaries in creation order: all nodes / all nodes but the root, in pre-order *)
 Definition dot_vertex_attrs (o : dotopts) (t : tree) : list sdict := map (vertex_attrs o) (pre (compact t)).
 Definition dot_edge_attrs (o : dotopts) (t : tree) : list sdict := map (edge_attrs o) (tl (pre (compact t))).
+
+(* ---------------------------------------------------------------------------------------------- *)
+(* tree_to_mermaid with its options (export.py:1575-1737): node shape / edge arrow given for the whole
+   chart or per node through an attribute (`node_shape_attr`, `edge_arrow_attr`: attribute name or
+   callable), edge labels from the attribute named by `edge_label`, per-node style classes from
+   `node_attr`; **kwargs (node_name_or_path, max_depth) go to yield_tree on the cloned tree.  The
+   per-node values are the scalar attributes shape / arrow / lbl / sty of the node (Algo/Render.v
+   `scalar_attrs`).  title, rankdir, line_shape and the default colours only appear in the header and
+   in the classDef lines, which are not modelled. *)
+
+(* constants.py MermaidConstants.NODE_SHAPES: text before and after "label" *)
+Definition node_shapes : list (str * (str * str)) :=
+  [
+    ([114; 111; 117; 110; 100; 101; 100; 95; 101; 100; 103; 101]%N, ([40]%N, [41]%N));
+    ([115; 116; 97; 100; 105; 117; 109]%N, ([40; 91]%N, [93; 41]%N));
+    ([115; 117; 98; 114; 111; 117; 116; 105; 110; 101]%N, ([91; 91]%N, [93; 93]%N));
+    ([99; 121; 108; 105; 110; 100; 114; 105; 99; 97; 108]%N, ([91; 40]%N, [41; 93]%N));
+    ([99; 105; 114; 99; 108; 101]%N, ([40; 40]%N, [41; 41]%N));
+    ([97; 115; 121; 109; 109; 101; 116; 114; 105; 99]%N, ([62]%N, [93]%N));
+    ([114; 104; 111; 109; 98; 117; 115]%N, ([123]%N, [125]%N));
+    ([104; 101; 120; 97; 103; 111; 110]%N, ([123; 123]%N, [125; 125]%N));
+    ([112; 97; 114; 97; 108; 108; 101; 108; 111; 103; 114; 97; 109]%N, ([91; 47]%N, [47; 93]%N));
+    ([112; 97; 114; 97; 108; 108; 101; 108; 111; 103; 114; 97; 109; 95; 97; 108; 116]%N, ([91; 92]%N, [92; 93]%N));
+    ([116; 114; 97; 112; 101; 122; 111; 105; 100]%N, ([91; 47]%N, [92; 93]%N));
+    ([116; 114; 97; 112; 101; 122; 111; 105; 100; 95; 97; 108; 116]%N, ([91; 92]%N, [47; 93]%N));
+    ([100; 111; 117; 98; 108; 101; 95; 99; 105; 114; 99; 108; 101]%N, ([40; 40; 40]%N, [41; 41; 41]%N))
+  ].
+(* MermaidConstants.EDGE_ARROWS *)
+Definition edge_arrows : list (str * str) :=
+  [
+    ([110; 111; 114; 109; 97; 108]%N, [45; 45; 62]%N);
+    ([98; 111; 108; 100]%N, [61; 61; 62]%N);
+    ([100; 111; 116; 116; 101; 100]%N, [45; 46; 45; 62]%N);
+    ([111; 112; 101; 110]%N, [45; 45; 45]%N);
+    ([98; 111; 108; 100; 95; 111; 112; 101; 110]%N, [61; 61; 61]%N);
+    ([100; 111; 116; 116; 101; 100; 95; 111; 112; 101; 110]%N, [45; 46; 45]%N);
+    ([105; 110; 118; 105; 115; 105; 98; 108; 101]%N, [126; 126; 126]%N);
+    ([99; 105; 114; 99; 108; 101]%N, [45; 45; 111]%N);
+    ([99; 114; 111; 115; 115]%N, [45; 45; 120]%N);
+    ([100; 111; 117; 98; 108; 101; 95; 110; 111; 114; 109; 97; 108]%N, [60; 45; 45; 62]%N);
+    ([100; 111; 117; 98; 108; 101; 95; 99; 105; 114; 99; 108; 101]%N, [111; 45; 45; 111]%N);
+    ([100; 111; 117; 98; 108; 101; 95; 99; 114; 111; 115; 115]%N, [120; 45; 45; 120]%N)
+  ].
+
+Fixpoint alookup {A} (k : str) (d : list (str * A)) : option A :=
+  match d with [] => None | (k', v) :: r => if str_eqb k k' then Some v else alookup k r end.
+
+Record mopts := MO { mo_shape : str; mo_shape_attr : bool; mo_arrow : str; mo_arrow_attr : bool;
+                     mo_label : bool; mo_node_attr : bool }.
+Definition mo_default : mopts :=
+  MO [114;111;117;110;100;101;100;95;101;100;103;101]%N false [110;111;114;109;97;108]%N false false false.
+
+Definition k_shape : str := [115; 104; 97; 112; 101]%N.
+Definition k_arrow : str := [97; 114; 114; 111; 119]%N.
+Definition k_lbl : str := [108; 98; 108]%N.
+Definition k_sty : str := [115; 116; 121]%N.
+
+(* _get_attr(node, attr, default) for a string-valued attribute *)
+Definition sattr (t : tree) (k : str) : option str :=
+  match vlookup k (scalar_attrs t) with Some (VStr s) => Some s | _ => None end.
+Definition sattr_or (t : tree) (k : str) (d : str) : str := match sattr t k with Some s => s | None => d end.
+
+Definition shaped (o : mopts) (t : tree) : str :=
+  let key := if mo_shape_attr o then sattr_or t k_shape (mo_shape o) else mo_shape o in
+  match alookup key node_shapes with
+  | Some (a, b) => a ++ [34%N] ++ tname t ++ [34%N] ++ b
+  | None => []                              (* KeyError; not generated *)
+  end.
+Definition arrow_of (o : mopts) (t : tree) : str :=
+  let key := if mo_arrow_attr o then sattr_or t k_arrow (mo_arrow o) else mo_arrow o in
+  match alookup key edge_arrows with Some a => a | None => [] end.
+(* a label is written when the attribute is truthy *)
+Definition elabel_of (o : mopts) (t : tree) : option str :=
+  if mo_label o then match sattr t k_lbl with Some [] => None | x => x end else None.
+Definition styled (o : mopts) (t : tree) : bool :=
+  mo_node_attr o && match sattr t k_sty with Some [] | None => false | Some _ => true end.
+
+Definition class_ref (ref : str) : str := [58; 58; 58; 99; 108; 97; 115; 115]%N ++ ref.   (* :::class<ref> *)
+
+(* one flow with everything written on its line except the root's style class *)
+Record mflowx := MX { mx_from : str; mx_from_name : str; mx_arrow : str; mx_label : option str;
+                      mx_to : str; mx_to_label : str; mx_to_name : str; mx_to_class : bool }.
+
+Fixpoint mgo_opt (o : mopts) (pid pname : str) (i : nat) (t : tree) : list mflowx :=
+  match t with
+  | T _ n _ ks =>
+      let cid := pid ++ dash ++ str_of_nat i in
+      MX pid pname (arrow_of o t) (elabel_of o t) cid n (shaped o t) (styled o t) ::
+      (fix go (j : nat) (l : list tree) : list mflowx :=
+         match l with
+         | [] => []
+         | k :: r => mgo_opt o cid [] j k ++ go (S j) r
+         end) 0 ks
+  end.
+
+Definition mermaid_flows_opt (o : mopts) (t : tree) : list mflowx :=
+  match t with
+  | T _ _ _ ks =>
+      (fix go (j : nat) (l : list tree) : list mflowx :=
+         match l with
+         | [] => []
+         | k :: r => mgo_opt o root_ref (shaped o t) j k ++ go (S j) r
+         end) 0 ks
+  end.
+
+Definition flowx_line (from_style : str) (f : mflowx) : str :=
+  mx_from f ++ mx_from_name f ++ from_style ++ [32%N] ++ mx_arrow f
+  ++ match mx_label f with Some l => [124%N] ++ l ++ [124%N] | None => [] end
+  ++ [32%N] ++ mx_to f ++ mx_to_name f ++ (if mx_to_class f then class_ref (mx_to f) else []).
+
+(* the root's class is attached to the first flow only (`len(styles) < 2`, export.py:1690) *)
+Definition mermaid_lines_opt (o : mopts) (t : tree) : list str :=
+  match mermaid_flows_opt o t with
+  | [] => []
+  | f :: r => flowx_line (if styled o t then class_ref root_ref else []) f :: map (flowx_line []) r
+  end.
+
+(* tree_to_mermaid(tree, <options>, node_name_or_path -> start, max_depth): clone_tree copies the
+   existing nodes of the whole tree, yield_tree then selects and cuts *)
+Definition mermaid_call (o : mopts) (t : tree) (start : pos) (max_depth : nat) : res (list mflowx * list str) :=
+  match get_subtree t start max_depth with
+  | Some s => Ret (mermaid_flows_opt o (compact s), mermaid_lines_opt o (compact s))
+  | None => Raise ValueError
+  end.
+
+(* ---------------------------------------------------------------------------------------------- *)
+(* tree_to_dot with a list of trees: `name_dict` is created anew for every tree (export.py:1294),
+   vertices and edges accumulate in the one graph *)
+Fixpoint dot_forest_go (sep : str) (ts : list tree) (s : dstate) : dstate :=
+  match ts with
+  | [] => s
+  | t :: r => let s1 := dot_go sep None [] (compact t) (DS [] (ds_nodes s) (ds_edges s)) in
+              dot_forest_go sep r s1
+  end.
+Definition dot_forest_nodes (sep : str) (ts : list tree) : list (str * str) :=
+  map (fun x => (pydot_name (fst x), snd x)) (ds_nodes (dot_forest_go sep ts (DS [] [] []))).
+Definition dot_forest_edges (sep : str) (ts : list tree) : list (str * str) :=
+  ds_edges (dot_forest_go sep ts (DS [] [] [])).
+Definition dot_forest_vertex_attrs (o : dotopts) (ts : list tree) : list sdict := flat_map (dot_vertex_attrs o) ts.
+Definition dot_forest_edge_attrs (o : dotopts) (ts : list tree) : list sdict := flat_map (dot_edge_attrs o) ts.
